@@ -194,6 +194,7 @@ class Check(PropertyCheck):
 
     def setup(self, tier):
         self.parallel = False
+        self.known_selftest()
 
     # ---------------------------------------------------------------- (T) tables regenerated from the live code
     def translate(self):
@@ -869,25 +870,124 @@ class Check(PropertyCheck):
             if wins and big > min(wins): out.append("flow-control:body>window")
         return out
 
+    # ---------------------------------------------------------------- recorded findings
+    # A failure is excused only if BOTH the input is in the finding's recorded class AND what mitmproxy wrote is exactly
+    # the recorded failure (structured facts from case + observation, not "some failure for an input that looks like X").
+    A_FAILS = ("upstream HTTP/1 bytes parse as ", "upstream HTTP/1 bytes are not one well-framed request",
+               "upstream HTTP/1 bytes continue after the end of the request")
+
+    @staticmethod
+    def _head_only(data):
+        """(parsed head as a message without body, bytes after the header section) or (None, None)"""
+        i = data.find(b"\r\n\r\n")
+        if i < 0: return None, None
+        p = ref.parse_requests(data[:i + 4]) if not data.startswith(b"HTTP/") else ref.parse_responses(data[:i + 4], methods=[b"HEAD"])
+        if len(p.messages) != 1 or p.stop is not None: return None, None
+        return p.messages[0], data[i + 4:]
+
+    @staticmethod
+    def _cl(fields):
+        return [v for k, v in fields if k.lower() == b"content-length"]
+
     def known(self, case, obs, failure):
-        # F-C06a: streamed HTTP/2 request body without Content-Length written to an HTTP/1 server without framing
-        if case["cv"] == 2 and case["sv"] == 1 and case.get("stream") and failure.startswith("upstream HTTP/1"):
+        cv, sv = case["cv"], case["sv"]
+        # F-C06a: STREAMED HTTP/2 request, non-empty body, no content-length/transfer-encoding in the block; recorded
+        # failure: the HTTP/1 server gets the correct head WITHOUT framing followed by exactly the raw body
+        if cv == 2 and sv == 1 and case.get("stream") and failure.startswith(self.A_FAILS):
             rq = Src(case, "req")
-            if rq.body and not any(k.lower() in FRAMING for k, _ in rq.fields):
-                return "F-C06a"
-        # F-C06b: HEADERS+END_STREAM with a non-zero content-length (hyper-h2 checks the length on DATA frames only)
-        if case["sv"] == 2 and case["cv"] == 1 and failure.startswith("client HTTP/1 response left incomplete"):
+            if rq.wellformed and rq.body and not any(k.lower() in FRAMING for k, _ in rq.fields) and obs["up"]["labels"]:
+                m, rest = self._head_only(unhx(obs["up"].get("bytes_hex", "-")))
+                if (m is not None and rest == rq.body and m["method"] == rq.method and m["target"] == rq.path
+                        and not any(k.lower() in FRAMING for k, _ in m["fields"])):
+                    return "F-C06a"
+        # F-C06b: HTTP/2 response to an HTTP/1 client, content-length N > 0 announced, stream ended without a DATA frame;
+        # recorded failure: the relayed head announces N, no body byte follows, connection kept open
+        if sv == 2 and cv == 1 and failure.startswith("client HTTP/1 response left incomplete (('incomplete', 'body'))"):
             rs = Src(case, "resp")
-            cl = [v for k, v in rs.fields if k.lower() == b"content-length"]
-            if not rs.body and cl and all(re.fullmatch(rb"[0-9]+", v) for v in cl) and any(int(v) > 0 for v in cl):
-                return "F-C06b"
-        # F-C06c: the same hole on the request side: content-length > 0 announced, stream ended without a DATA frame
-        if case["cv"] == 2 and case["sv"] == 1 and failure.startswith("upstream HTTP/1 request is incomplete"):
+            cl = self._cl(rs.fields)
+            if (rs.wellformed and not rs.body and len(cl) == 1 and re.fullmatch(rb"[1-9][0-9]*", cl[0])
+                    and "response" in obs["hooks"] and "error" not in obs["hooks"]):
+                m, rest = self._head_only(unhx(obs["down"].get("bytes_hex", "-")))
+                if m is not None and rest == b"" and self._cl(m["fields"]) == cl and m["status"] == rs.status:
+                    return "F-C06b"
+        # F-C06c: the same on the request side (HTTP/2 client -> HTTP/1 server); recorded failure: the forwarded head
+        # announces N, no body byte follows
+        if cv == 2 and sv == 1 and failure.startswith("upstream HTTP/1 request is incomplete (('incomplete', 'body'))"):
             rq = Src(case, "req")
-            cl = [v for k, v in rq.fields if k.lower() == b"content-length"]
-            if not rq.body and cl and all(re.fullmatch(rb"[0-9]+", v) for v in cl) and any(int(v) > 0 for v in cl):
-                return "F-C06c"
+            cl = self._cl(rq.fields)
+            if rq.wellformed and not rq.body and len(cl) == 1 and re.fullmatch(rb"[1-9][0-9]*", cl[0]) and obs["up"]["labels"]:
+                m, rest = self._head_only(unhx(obs["up"].get("bytes_hex", "-")))
+                if (m is not None and rest == b"" and self._cl(m["fields"]) == cl and m["method"] == rq.method
+                        and m["target"] == rq.path):
+                    return "F-C06c"
         return None
+
+    def known_selftest(self):
+        """positive witnesses and near misses of every classifier (raises AssertionError: the run ends as INFRA)"""
+        from common.check import load_known
+        db = load_known(self.prop)
+        wit = {k: v["witness"] for k, v in db.items()}
+        checks = []
+
+        def run(case):
+            obs = self._impl(case)
+            return obs, self.oracle(case, obs)
+
+        def edit(case, fn):
+            c = json.loads(json.dumps(case)); fn(c); return c
+        # ---- F-C06a
+        wa = wit["F-C06a"]; oa, fa = run(wa)
+        assert fa, "F-C06a witness no longer fails"
+        checks.append((wa, oa, fa[0], "F-C06a"))
+        # (a) same input class, other clauses of the oracle
+        checks.append((wa, oa, "request body changed: b'x' -> b'y'", None))
+        checks.append((wa, oa, "upstream HTTP/1 request is incomplete (('incomplete', 'body')) although the exchange completed: b''", None))
+        #     same input class and clause, but what was written is NOT head + raw body (path altered in the observation)
+        ob = json.loads(json.dumps(oa)); ob["up"]["bytes_hex"] = hx(unhx(oa["up"]["bytes_hex"]).replace(b"POST / ", b"POST /x ", 1))
+        checks.append((wa, ob, fa[0], None))
+        ob = json.loads(json.dumps(oa)); ob["up"]["bytes_hex"] = hx(unhx(oa["up"]["bytes_hex"]) + b"Z")
+        checks.append((wa, ob, fa[0], None))
+        # (b) neighbouring inputs with the same kind of failure text: buffered instead of streamed; content-length present
+        nb = edit(wa, lambda c: c.update(stream=0)); onb, _ = run(nb)
+        checks.append((nb, onb, fa[0], None))
+        nb = edit(wa, lambda c: c["req"].update(block=c["req"]["block"] + [[hx(b"content-length"), hx(b"%d" % len(unhx(c["req"]["body_hex"])))]]))
+        onb, fnb = run(nb)
+        assert not fnb, f"streamed request WITH content-length fails: {fnb}"
+        checks.append((nb, onb, fa[0], None))
+        # ---- F-C06b
+        wb = wit["F-C06b"]; ob_, fb = run(wb)
+        assert fb, "F-C06b witness no longer fails"
+        checks.append((wb, ob_, fb[0], "F-C06b"))
+        checks.append((wb, ob_, "client HTTP/1 response left incomplete on an open connection (('incomplete', 'until-eof')): b''", None))
+        checks.append((wb, ob_, "status changed: 201 -> 200", None))
+        o2 = json.loads(json.dumps(ob_)); o2["down"]["bytes_hex"] = hx(unhx(ob_["down"]["bytes_hex"]) + b"ab")
+        checks.append((wb, o2, fb[0], None))          # some body bytes did follow: not the recorded failure
+        nb = edit(wb, lambda c: c["resp"].update(body_hex=hx(b"abc"), block=[x for x in c["resp"]["block"] if unhx(x[0]) != b"content-length"] + [[hx(b"content-length"), hx(b"3")]]))
+        onb, fnb = run(nb)
+        assert not fnb, f"response with matching content-length fails: {fnb}"
+        checks.append((nb, onb, fb[0], None))
+        nb = edit(wb, lambda c: c["resp"].update(block=[x for x in c["resp"]["block"] if unhx(x[0]) != b"content-length"] + [[hx(b"content-length"), hx(b"0")]]))
+        onb, _ = run(nb)
+        checks.append((nb, onb, fb[0], None))
+        # ---- F-C06c
+        wc = wit["F-C06c"]; oc, fc = run(wc)
+        assert fc, "F-C06c witness no longer fails"
+        checks.append((wc, oc, fc[0], "F-C06c"))
+        checks.append((wc, oc, "upstream HTTP/1 request is incomplete (('incomplete', 'head')) although the exchange completed: b''", None))
+        checks.append((wc, oc, "method changed: b'POST' -> b'GET'", None))
+        o2 = json.loads(json.dumps(oc)); o2["up"]["bytes_hex"] = hx(unhx(oc["up"]["bytes_hex"]).replace(b"content-length: 5", b"content-length: 7"))
+        checks.append((wc, o2, fc[0], None))          # the announced length was altered on the way: another defect
+        nb = edit(wc, lambda c: c["req"].update(body_hex=hx(b"abcde")))
+        onb, fnb = run(nb)
+        assert not fnb, f"request with matching content-length fails: {fnb}"
+        checks.append((nb, onb, fc[0], None))
+        nb = edit(wc, lambda c: c["req"].update(block=[x for x in c["req"]["block"] if unhx(x[0]) != b"content-length"] + [[hx(b"content-length"), hx(b"0")]]))
+        onb, fnb = run(nb)
+        assert not fnb, f"request with content-length 0 and no body fails: {fnb}"
+        checks.append((nb, onb, fc[0], None))
+        for case, obs, failure, want in checks:
+            got = self.known(case, obs, failure)
+            assert got == want, f"known() classifier self-test: expected {want}, got {got} for {failure[:70]!r} on {json.dumps(case)[:160]}"
 
     def neighbours(self, case, rng):
         for _ in range(200):
